@@ -21,6 +21,9 @@ type VP9Frame struct {
 	Seed    uint64        `json:"seed"`
 	Toggle  bool          `json:"toggle,omitempty"` // the public FlexibleMode field is flipped before this frame; the picture id keeps running
 	MTU     uint16        `json:"mtu,omitempty"`    // 0 = the case's MTU
+	// EmptyBefore: an empty (1) or nil (2) buffer is handed to the payloader before this frame (the encoder dropped a
+	// frame): no packets; whether that call uses up a picture id is left open, the next frame's id is learned anew
+	EmptyBefore int `json:"empty_before,omitempty"`
 }
 
 func (f *VP9Frame) bytes() ([]byte, int) {
@@ -96,6 +99,17 @@ func checkC12Pay(r *run, c *VP9PayCase) (CaseInfo, error) {
 			flex = !flex
 			p.FlexibleMode = flex
 			ci.class("mode-toggled-mid-stream")
+		}
+		if f.EmptyBefore != 0 {
+			var none []byte
+			if f.EmptyBefore == 1 {
+				none = []byte{}
+			}
+			if out := p.Payload(mtu, none); len(out) != 0 {
+				return ci, failf("frame %d: an empty buffer produced %d packets", fi, len(out))
+			}
+			learnID = true
+			ci.class("empty-call-interleaved")
 		}
 		frame, _ := f.bytes()
 		orig := clone(frame)
@@ -293,10 +307,7 @@ func checkC12Desc(r *run, c *VP9DescCase) (CaseInfo, error) {
 		return ci, nil
 	}
 	if len(in) == len(db) {
-		ci.class("descriptor-only")
-		if err != nil {
-			return ci, nil // a packet ending right after the descriptor: acceptance not specified
-		}
+		ci.class("descriptor-only") // complete descriptor, no payload byte: decoded like any other
 	}
 	if err != nil {
 		return ci, failf("well-formed descriptor %s (%s) + %d payload bytes rejected: %v", hx(db), vp9Obs(&c.D), len(in)-len(db), err)
@@ -442,6 +453,9 @@ func genVP9PayCase(t *rapid.T) *VP9PayCase {
 			c.Frames[i].BodyLen %= 600
 		}
 	}
+	if rapid.IntRange(0, 5).Draw(t, "emptycalls") == 0 {
+		c.Frames[rapid.IntRange(0, len(c.Frames)-1).Draw(t, "emptyat")].EmptyBefore = rapid.IntRange(1, 2).Draw(t, "emptykind")
+	}
 	if rapid.IntRange(0, 4).Draw(t, "varymtu") == 0 {
 		for i := range c.Frames {
 			if genBool(t, "ownmtu") {
@@ -548,7 +562,7 @@ func genVP9DescCase1(t *rapid.T) *VP9DescCase {
 	return c
 }
 
-const ruleC12 = "payloader: 1-4 frames whose uncompressed header prefix is written bit by bit by an independent writer (profiles 0-3 with reserved bit, show_existing_frame, key/non-key, all colour spaces incl. RGB, subsampling bits, size-1 in [0,65534]^2, garbage in reserved and trailing bits) followed by 0-5000 random bytes (one case in 60: a frame of 65520-200000 bytes; one in 300: a single frame that needs 65530-70000 packets at the smallest MTU), flexible and non-flexible mode (one case in six flips the public FlexibleMode field between frames), MTU >= 4 (>= 12 when a non-flexible key frame occurs) biased to the thresholds (one case in five changes the MTU between frames), initial picture id biased to 0,127,128,32766,32767,65535 or (one case in six) left to the library's default, then learned from the first packet; every packet is decoded by VP9Packet (a fresh one per packet, or one for the whole stream) and by an independent RFC 9628 descriptor parser: concatenation = frame, B/E placement, IsPartitionHead=B, F=mode, 15-bit id constant per frame and +1 per frame mod 2^15, <= MTU, non-flexible P=non-key and V/Y/width/height on the first packet of a key frame. descriptor: reference-built descriptors (I 7/15 bit, L, F with I, 1-3 P_DIFF, SS with N_S 0-7, Y, G, N_G 0-255 with R 0-3; SID 0-4 since pion supports 5 spatial layers by design) + payload (0-40 bytes, one case in a hundred followed by 64 KiB more), all truncations rejected; half of the cases decode 1-2 other descriptors into the same VP9Packet first; one case in eight runs in zero-allocation mode (only acceptance and the returned bytes are checked). header: vp9.Header.Unmarshal equals the writer's fields and rejects every short byte prefix. Non-trivial = >=2 packets, non-flexible key frame with profile>=1 or RGB, SS with picture groups, >=2 P_DIFF, truncation, key-frame header; distinct = FNV-64 of the JSON case"
+const ruleC12 = "payloader: 1-4 frames whose uncompressed header prefix is written bit by bit by an independent writer (profiles 0-3 with reserved bit, show_existing_frame, key/non-key, all colour spaces incl. RGB, subsampling bits, size-1 in [0,65534]^2, garbage in reserved and trailing bits) followed by 0-5000 random bytes (one case in 60: a frame of 65520-200000 bytes; one in 300: a single frame that needs 65530-70000 packets at the smallest MTU), flexible and non-flexible mode (one case in six flips the public FlexibleMode field between frames), MTU >= 4 (>= 12 when a non-flexible key frame occurs) biased to the thresholds (one case in five changes the MTU between frames; one in six hands the payloader an empty or nil buffer between frames), initial picture id biased to 0,127,128,32766,32767,65535 or (one case in six) left to the library's default, then learned from the first packet; every packet is decoded by VP9Packet (a fresh one per packet, or one for the whole stream) and by an independent RFC 9628 descriptor parser: concatenation = frame, B/E placement, IsPartitionHead=B, F=mode, 15-bit id constant per frame and +1 per frame mod 2^15, <= MTU, non-flexible P=non-key and V/Y/width/height on the first packet of a key frame. descriptor: reference-built descriptors (I 7/15 bit, L, F with I, 1-3 P_DIFF, SS with N_S 0-7, Y, G, N_G 0-255 with R 0-3; SID 0-4 since pion supports 5 spatial layers by design) + payload (0-40 bytes, one case in a hundred followed by 64 KiB more), all truncations rejected; half of the cases decode 1-2 other descriptors into the same VP9Packet first; one case in eight runs in zero-allocation mode (only acceptance and the returned bytes are checked). header: vp9.Header.Unmarshal equals the writer's fields and rejects every short byte prefix. Non-trivial = >=2 packets, non-flexible key frame with profile>=1 or RGB, SS with picture groups, >=2 P_DIFF, truncation, key-frame header; distinct = FNV-64 of the JSON case"
 
 func TestC12(t *testing.T) {
 	r := begin(t, "C12", "exploration", ruleC12)
